@@ -39,6 +39,9 @@ type World struct {
 	P4            *fakep4.Server // the switch of the UP4 datapath (nil on BESS)
 	p4n           *p4names
 	p4Seen        int // updates already reported in a trace line
+	// P4Fault, when set, makes the switch fail one write of the next request (one shot)
+	P4Fault  *P4FaultPlan
+	LastRpcs int // Write RPCs the switch received during the last request
 	Agent         *agent.Agent
 	Peers         map[string]*pfcpx.Peer
 	UpTok         *pfcpx.Toks
@@ -430,7 +433,7 @@ func (w *World) StartAgent() error {
 	w.dpObs(ev)
 
 	if w.P4 != nil {
-		ev["p4info"] = InfoJSON(w.P4.Info)
+		ev["cfg"].(map[string]interface{})["p4info"] = InfoJSON(w.P4.Info)
 		ev["snap"] = w.snapJSON()
 	}
 
